@@ -10,7 +10,7 @@ import vlib
 
 BASE = dict(LeafCap=3, IntCap=3, FixSplitTomb="TRUE", FixDeleteLSN="TRUE", FixReplayLSN="TRUE", FixReplayRoot="TRUE", FixReplayKey="TRUE", FixStmtAtomic="TRUE",
             Tables='{"t1", "t2"}', Vals="{1, 2}", BadMode='"none"', WalSteps="FALSE", FlushSteps="FALSE",
-            CrashAt="{}", NoCrashIn="{}", Wheres=None, DmlTables=None, Ops='{"create", "insert", "update", "delete"}', MaxStmts=4, MaxRows=2, MaxFlush=1, MaxCrash=0, MaxEvict=0, EmitOn="TRUE", EmitSel='"all"', EmitMod=1)
+            CrashAt="{}", NoCrashIn="{}", Wheres=None, DmlTables=None, Ops='{"create", "insert", "update", "delete"}', MaxStmts=4, MaxRows=2, MaxFlush=1, MaxCrash=0, MaxEvict=0, EmitOn="TRUE", EmitSel='"all"', EmitMod=1, Script="<- ScriptNone", ScriptRows="<- RowsNone")
 INVS = "ScanEqAbs CatalogOK TreesOK IdsOK StartsUp NothingLost"
 
 
@@ -22,7 +22,7 @@ def cfg_text(over, invariants=INVS):
     if c.get("Wheres") is None:
         vals = [x.strip() for x in c["Vals"].strip("{}").split(",") if x.strip() and x.strip() != "9"]
         c["Wheres"] = "{" + ", ".join(["0"] + vals) + "}"
-    lines = ["CONSTANTS"] + ["  %s = %s" % (k, v) for k, v in c.items()]
+    lines = ["CONSTANTS"] + [("  %s <- %s" % (k, v[2:].strip()) if isinstance(v, str) and v.startswith("<-") else "  %s = %s" % (k, v)) for k, v in c.items()]
     lines += ["INIT MCInit", "NEXT MCNext", "VIEW View", "ACTION_CONSTRAINT Emit", "INVARIANTS " + invariants, "CHECK_DEADLOCK FALSE"]
     return "\n".join(lines) + "\n", c
 
